@@ -1,7 +1,8 @@
 /-
   C18 helper lemmas: the inductive invariants of the step relation of Model/Cache.lean.
   `Inv`   — structural invariant, holds on every history (no hypothesis);
-  `InvF`  — freshness invariant, preserved by the events allowed by `evOK`;
+  `InvF`  — freshness invariant, preserved by the events allowed by `evDistinct`;
+  `InvC`  — the entry name never points to a torn pickle;
   `InvP`  — scanner-version invariant, preserved while only stores of version V step.
 -/
 import GIVerif.Model.Cache
@@ -31,38 +32,35 @@ def Held (s : State) (i v0 : Nat) : Prop :=
 def pcInv (s : State) (p : Nat) : PC → Prop
   | .sWrite i k => Owned s p i ∧ k < full ∧ (s.inodes i).len = k
   | .sClose i => Owned s p i ∧ (s.inodes i).len = full
-  | .sRename i => Owned s p i ∧ (s.inodes i).len = full
+  | .sUtime i => Owned s p i ∧ (s.inodes i).len = full
+  | .sRename i => Owned s p i ∧ (s.inodes i).len = full ∧ (s.inodes i).mtime = (s.procs p).m0
   | .lFstat i v0 => Held s i v0
   | .lStatSrc i v0 m => Held s i v0 ∧ m = (s.inodes i).mtime
-  | .lRead i v0 m sm => Held s i v0 ∧ m = (s.inodes i).mtime ∧ sm ≤ m ∧
+  | .lRead i v0 m sm => Held s i v0 ∧ m = (s.inodes i).mtime ∧ sm = m ∧
       ∃ vs, v0 ≤ vs ∧ vs ≤ s.ver ∧ sm = s.srcM vs
-  | .done (some r) => r.len = full ∧ r.srcSeen ≤ r.entryM ∧ r.vStart ≤ r.vEnd ∧ r.data ≤ r.vEnd
+  | .done (some r) => r.len = full ∧ r.srcSeen = r.entryM ∧ r.vStart ≤ r.vEnd ∧ r.data ≤ r.vEnd
   | .raised => False
-  -- the cross-device publish is unreachable when TMPDIR and the cache are on one file system
-  | .xOpen _ | .xWrite _ _ _ | .xClose _ _ | .xCopystat _ | .xUnlink _ => False
   | _ => True
 
 structure Inv (s : State) : Prop where
-  sameDevice : s.xdev = false
   entry : ∀ i, s.entry = some i → i < s.nIno ∧ (s.inodes i).pub = true
+  /-- the temporary names in the cache directory point to inodes that were never published -/
+  tmps : ∀ i, i ∈ s.tmps → i < s.nIno ∧ (s.inodes i).pub = false
   dataLe : ∀ i, i < s.nIno → (s.inodes i).data ≤ s.ver
   procData : ∀ p, (s.procs p).pc ≠ .idle → (s.procs p).data ≤ s.ver
   pcs : ∀ p, pcInv s p (s.procs p).pc
 
-/-- initial states: nobody is running; the entry name, if present, points to an existing inode -/
-structure InitAny (s : State) : Prop where
+/-- initial states: nobody is running; the entry name, if present, points to an existing inode;
+    no temporary file is lying in the cache directory -/
+structure Init (s : State) : Prop where
   idle : ∀ p, (s.procs p).pc = .idle
   entry : ∀ i, s.entry = some i → i < s.nIno ∧ (s.inodes i).pub = true
+  tmps : s.tmps = []
   dataLe : ∀ i, i < s.nIno → (s.inodes i).data ≤ s.ver
 
-/-- initial states of the theorems: additionally TMPDIR (where `mkstemp` puts the temp files)
-    and the cache directory are on the same file system, so that `shutil.move` is a rename -/
-structure Init (s : State) : Prop extends InitAny s where
-  sameDevice : s.xdev = false
-
 theorem Init.inv {s : State} (h : Init s) : Inv s where
-  sameDevice := h.sameDevice
   entry := h.entry
+  tmps := by intro i hi; rw [h.tmps] at hi; cases hi
   dataLe := h.dataLe
   procData := fun p hp => absurd (h.idle p) hp
   pcs := fun p => by rw [h.idle p]; trivial
@@ -74,7 +72,7 @@ structure Frame (p : Nat) (s s' : State) : Prop where
   srcM : s'.srcM = s.srcM
   clock : s'.clock = s.clock
   others : ∀ q, q ≠ p → s'.procs q = s.procs q
-  self : (s'.procs p).data = (s.procs p).data ∧ (s'.procs p).sver = (s.procs p).sver
+  self : (s'.procs p).sver = (s.procs p).sver ∧ (s'.procs p).m0 = (s.procs p).m0
   /-- only a private temp inode of `p` changes, and then only its length, mtime and pub flag -/
   inodes : ∀ i, i < s.nIno →
     (s'.inodes i).data = (s.inodes i).data ∧ (s'.inodes i).sver = (s.inodes i).sver ∧
@@ -109,10 +107,14 @@ theorem Frame.pcInv_other {p q : Nat} {s s' : State} (hf : Frame p s s') (hq : q
     obtain ⟨h1, h3⟩ := h
     obtain ⟨a, e⟩ := key i h1
     exact ⟨a, by rw [e]; exact h3⟩
-  | sRename i =>
+  | sUtime i =>
     obtain ⟨h1, h3⟩ := h
     obtain ⟨a, e⟩ := key i h1
     exact ⟨a, by rw [e]; exact h3⟩
+  | sRename i =>
+    obtain ⟨h1, h3, h4⟩ := h
+    obtain ⟨a, e⟩ := key i h1
+    exact ⟨a, by rw [e]; exact h3, by rw [e, ho]; exact h4⟩
   | lFstat i v0 => exact (keyH i v0 h).1
   | lStatSrc i v0 m =>
     obtain ⟨h1, h2⟩ := h
@@ -122,29 +124,24 @@ theorem Frame.pcInv_other {p q : Nat} {s s' : State} (hf : Frame p s s') (hq : q
     obtain ⟨h1, h2, h3, vs, h4, h5, h6⟩ := h
     obtain ⟨a, e⟩ := keyH i v0 h1
     exact ⟨a, by rw [e]; exact h2, h3, vs, h4, by rw [hf.ver]; exact h5, by rw [hf.srcM]; exact h6⟩
-  | xOpen i => exact h
-  | xWrite i j k => exact h
-  | xClose i j => exact h
-  | xCopystat i => exact h
-  | xUnlink i => exact h
   | done r => cases r <;> exact h
   | raised => exact h
   | _ => trivial
 
-
-theorem frame_simple (p : Nat) (s s' : State) (pc : PC) (h1 : s'.nIno = s.nIno) (h2 : s'.ver = s.ver)
+theorem frame_simple (p : Nat) (s s' : State) (pr' : Proc) (h1 : s'.nIno = s.nIno) (h2 : s'.ver = s.ver)
     (h3 : s'.srcM = s.srcM) (h4 : s'.clock = s.clock) (h5 : s'.inodes = s.inodes)
-    (h6 : s'.procs = upd s.procs p { s.procs p with pc := pc }) : Frame p s s' where
+    (h6 : s'.procs = upd s.procs p pr') (h7 : pr'.sver = (s.procs p).sver) (h8 : pr'.m0 = (s.procs p).m0) :
+    Frame p s s' where
   nIno := by rw [h1]; exact Nat.le_refl _
   ver := h2
   srcM := h3
   clock := h4
   others := fun q hq => by rw [h6, upd_other _ _ _ _ hq]
-  self := by rw [h6]; simp
+  self := by rw [h6]; simp [h7, h8]
   inodes := fun i _ => by rw [h5]; exact ⟨rfl, rfl, rfl, Or.inr rfl⟩
 
 theorem frame_setPc (s : State) (p : Nat) (pc : PC) : Frame p s (s.setPc p pc) :=
-  frame_simple p s _ pc rfl rfl rfl rfl rfl rfl
+  frame_simple p s _ _ rfl rfl rfl rfl rfl rfl rfl rfl
 
 theorem frame_refl (s : State) (p : Nat) : Frame p s s where
   nIno := Nat.le_refl _
@@ -155,15 +152,34 @@ theorem frame_refl (s : State) (p : Nat) : Frame p s s where
   self := ⟨rfl, rfl⟩
   inodes := fun _ _ => ⟨rfl, rfl, rfl, Or.inr rfl⟩
 
+theorem frame_unlinkName (s : State) (p : Nat) (n : Name) (pc : PC) : Frame p s ((unlinkName s n).setPc p pc) := by
+  cases n <;> exact frame_simple p s _ _ rfl rfl rfl rfl rfl rfl rfl rfl
+
+/-- a private inode of `p` is modified (length / mtime / pub flag) -/
+theorem frame_inode (p : Nat) (s s' : State) (pr' : Proc) (i : Nat) (n : Inode)
+    (ho : (s.inodes i).owner = p) (hpub : (s.inodes i).pub = false)
+    (h1 : s'.nIno = s.nIno) (h2 : s'.ver = s.ver)
+    (h3 : s'.srcM = s.srcM) (h4 : s'.clock = s.clock) (h5 : s'.inodes = upd s.inodes i n)
+    (h6 : s'.procs = upd s.procs p pr') (h7 : pr'.sver = (s.procs p).sver) (h8 : pr'.m0 = (s.procs p).m0)
+    (hn : n.data = (s.inodes i).data ∧ n.sver = (s.inodes i).sver ∧ n.owner = (s.inodes i).owner) :
+    Frame p s s' where
+  nIno := by rw [h1]; exact Nat.le_refl _
+  ver := h2
+  srcM := h3
+  clock := h4
+  others := fun q hq => by rw [h6, upd_other _ _ _ _ hq]
+  self := by rw [h6]; simp [h7, h8]
+  inodes := fun j _ => by
+    rw [h5]
+    by_cases e : j = i
+    · subst e; simp [hn, ho, hpub]
+    · simp [upd_other _ _ _ _ e]
+
 theorem stepProc_frame (s : State) (p : Nat) (h : Inv s) : Frame p s (stepProc s p) := by
   have hp := h.pcs p
-  cases hpc : (s.procs p).pc <;> simp only [stepProc, hpc, h.sameDevice, Bool.false_eq_true, if_false] <;> rw [hpc] at hp
+  cases hpc : (s.procs p).pc <;> simp only [stepProc, hpc] <;> rw [hpc] at hp
   all_goals (try (exact False.elim hp))
-  all_goals (try (split <;> (try split) <;> exact frame_setPc _ _ _))
-  all_goals (try exact frame_setPc _ _ _)
-  all_goals (try exact frame_refl _ _)
-  all_goals (try (split <;> (try split) <;> first | exact frame_setPc _ _ _ | exact frame_simple p s _ _ rfl rfl rfl rfl rfl rfl))
-  all_goals (try exact frame_simple p s _ _ rfl rfl rfl rfl rfl rfl)
+  case sParse => exact frame_simple p s _ _ rfl rfl rfl rfl rfl rfl rfl rfl
   case sMkstemp =>
     refine ⟨Nat.le_succ _, rfl, rfl, rfl, fun q hq => by simp [upd_other _ _ _ _ hq], by simp, ?_⟩
     intro i hi
@@ -171,18 +187,34 @@ theorem stepProc_frame (s : State) (p : Nat) (h : Inv s) : Frame p s (stepProc s
     simp [upd_other _ _ _ _ this]
   case sWrite i k =>
     obtain ⟨⟨h1, h2, h3, h4, h5⟩, _, _⟩ := hp
-    refine ⟨Nat.le_refl _, rfl, rfl, rfl, fun q hq => by simp [upd_other _ _ _ _ hq], by simp, ?_⟩
-    intro j hj
-    by_cases e : j = i
-    · subst e; simp [h2, h3]
-    · simp [upd_other _ _ _ _ e]
+    exact frame_inode p s _ _ i _ h3 h2 rfl rfl rfl rfl rfl rfl rfl rfl ⟨rfl, rfl, rfl⟩
+  case sUtime i =>
+    obtain ⟨⟨h1, h2, h3, h4, h5⟩, _⟩ := hp
+    split
+    · exact frame_inode p s _ _ i _ h3 h2 rfl rfl rfl rfl rfl rfl rfl rfl ⟨rfl, rfl, rfl⟩
+    · split <;> exact frame_setPc _ _ _
   case sRename i =>
     obtain ⟨⟨h1, h2, h3, h4, h5⟩, _⟩ := hp
-    refine ⟨Nat.le_refl _, rfl, rfl, rfl, fun q hq => by simp [upd_other _ _ _ _ hq], by simp, ?_⟩
-    intro j hj
-    by_cases e : j = i
-    · subst e; simp [h2, h3]
-    · simp [upd_other _ _ _ _ e]
+    split
+    · exact frame_inode p s _ _ i _ h3 h2 rfl rfl rfl rfl rfl rfl rfl rfl ⟨rfl, rfl, rfl⟩
+    · split <;> exact frame_setPc _ _ _
+  case sUnlinkTmp i =>
+    split
+    · exact frame_simple p s _ _ rfl rfl rfl rfl rfl rfl rfl rfl
+    · split <;> exact frame_setPc _ _ _
+  case cUnlink todo =>
+    cases todo with
+    | nil => exact frame_setPc _ _ _
+    | cons n rest =>
+      simp only
+      split
+      · exact frame_unlinkName _ _ _ _
+      · split <;> exact frame_setPc _ _ _
+  all_goals (try (split <;> (try split) <;> (try split) <;> first | exact frame_setPc _ _ _ | exact frame_simple p s _ _ rfl rfl rfl rfl rfl rfl rfl rfl))
+  all_goals (try exact frame_setPc _ _ _)
+  all_goals (try exact frame_refl _ _)
+  all_goals (try exact frame_simple p s _ _ rfl rfl rfl rfl rfl rfl rfl rfl)
+
 theorem stepProc_self (s : State) (p : Nat) (h : Inv s) :
     pcInv (stepProc s p) p ((stepProc s p).procs p).pc := by
   have hp := h.pcs p
@@ -190,8 +222,14 @@ theorem stepProc_self (s : State) (p : Nat) (h : Inv s) :
   have hd := h.dataLe
   cases hpc : (s.procs p).pc <;> rw [hpc] at hp <;>
     simp only [stepProc, hpc, statEntryCatchesENOENT, openCatchesENOENT, unpickleCatchesAll, brokenIsUnlinked,
-      unlinkCatchesENOENT, stampCatchesENOENT, loadByFd, if_true, h.sameDevice, Bool.false_eq_true, if_false]
+      unlinkCatchesENOENT, stampCatchesENOENT, loadByFd, utimeCatchesENOENT, moveCatchesENOENT, if_true]
   all_goals (try (exact False.elim hp))
+  case cUnlink todo =>
+    cases todo with
+    | nil => simp [State.setPc, pcInv]
+    | cons n rest =>
+      simp only
+      split <;> (split <;> simp [State.setPc, pcInv, unlinkName]) <;> (cases n <;> simp [State.setPc, pcInv, unlinkName])
   all_goals (try (split <;> (try split)))
   all_goals (try simp [State.setPc, pcInv])
   case sMkstemp => simp [Owned, full]
@@ -204,6 +242,9 @@ theorem stepProc_self (s : State) (p : Nat) (h : Inv s) :
   case sClose i =>
     simp only [pcInv, Owned] at hp
     simp [Owned, hp]
+  case sUtime.isTrue i hc =>
+    simp only [pcInv, Owned] at hp
+    simp [Owned, hp]
   case h_2 i hi =>
     have := he i hi
     simp [Held, this]
@@ -213,41 +254,128 @@ theorem stepProc_self (s : State) (p : Nat) (h : Inv s) :
     simp only [pcInv, Held] at hp
     simp [loadStale] at hs
     simp [Held, hp]
-    exact ⟨by omega, s.ver, hp.1.2.2, Nat.le_refl _, rfl⟩
+    exact ⟨by rw [← hp.2]; exact hs.symm, s.ver, hp.1.2.2, Nat.le_refl _, rfl⟩
   case lRead.isTrue i v0 m sm hc =>
     simp only [pcInv, Held] at hp
     obtain ⟨⟨h1, h2, h3⟩, h4, h5, _⟩ := hp
     exact ⟨by simpa [Inode.complete] using hc, by omega, h3, hd i h1⟩
   case done r => cases r <;> simp [pcInv] at hp ⊢ <;> exact hp
 
+theorem mem_filter_ne {l : List Nat} {i j : Nat} (h : j ∈ l.filter (· != i)) : j ∈ l ∧ j ≠ i := by
+  simpa using h
+
+/-- how a system call can change what the entry name points to -/
+theorem stepProc_entry_cases (s : State) (p : Nat) (h : Inv s) :
+    (stepProc s p).entry = s.entry ∨ (stepProc s p).entry = none ∨
+      ∃ i, (s.procs p).pc = .sRename i ∧ i ∈ s.tmps ∧ (stepProc s p).entry = some i := by
+  have hp := h.pcs p
+  cases hpc : (s.procs p).pc <;> rw [hpc] at hp <;> simp only [stepProc, hpc]
+  all_goals (try (exact False.elim hp))
+  case cUnlink todo =>
+    cases todo with
+    | nil => left; rfl
+    | cons n rest =>
+      simp only
+      split
+      · cases n
+        · right; left; rfl
+        · left; rfl
+      · split <;> (left; rfl)
+  case sRename i =>
+    split
+    · rename_i hc
+      right; right; exact ⟨i, rfl, by simpa using hc, rfl⟩
+    · split <;> (left; rfl)
+  all_goals (try (split <;> (try split) <;> (try split)))
+  all_goals (try (left; first | rfl | trivial))
+  all_goals (try (right; left; rfl))
 
 theorem stepProc_entry (s : State) (p : Nat) (h : Inv s) (i : Nat) (hi : (stepProc s p).entry = some i) :
     i < (stepProc s p).nIno ∧ ((stepProc s p).inodes i).pub = true := by
+  have hf := stepProc_frame s p h
+  rcases stepProc_entry_cases s p h with a | a | ⟨j, a, b, c⟩
+  · rw [a] at hi
+    obtain ⟨h1, h2⟩ := h.entry i hi
+    refine ⟨Nat.lt_of_lt_of_le h1 hf.nIno, ?_⟩
+    rcases (hf.inodes i h1).2.2.2 with ⟨_, d⟩ | d
+    · rw [h2] at d; cases d
+    · rw [d]; exact h2
+  · rw [a] at hi; cases hi
+  · have e : j = i := by rw [c] at hi; exact Option.some.inj hi
+    subst e
+    have hc : s.tmps.contains j = true := by simpa using b
+    have hj := (h.tmps j b).1
+    simp only [stepProc, a, hc, if_true, upd_same]
+    exact ⟨hj, trivial⟩
+
+theorem stepProc_tmps (s : State) (p : Nat) (h : Inv s) (j : Nat) (hj : j ∈ (stepProc s p).tmps) :
+    j < (stepProc s p).nIno ∧ ((stepProc s p).inodes j).pub = false := by
   have hp := h.pcs p
-  have he := h.entry
-  revert hi
-  cases hpc : (s.procs p).pc <;> rw [hpc] at hp <;> simp only [stepProc, hpc, h.sameDevice, Bool.false_eq_true, if_false]
+  have ht := h.tmps
+  revert hj
+  cases hpc : (s.procs p).pc <;> rw [hpc] at hp <;> simp only [stepProc, hpc]
   all_goals (try (exact False.elim hp))
-  all_goals (try (split <;> (try split) <;> (try split)))
-  all_goals (try (simp only [State.setPc]; exact he i))
-  all_goals (try exact he i)
-  all_goals (try (intro hi; cases hi))
   case sMkstemp =>
-    intro hi
-    obtain ⟨a, b⟩ := he i hi
-    have : i ≠ s.nIno := Nat.ne_of_lt a
-    simp [upd_other _ _ _ _ this, b]; omega
-  case sWrite =>
-    rename_i j k
-    intro hi
-    obtain ⟨a, b⟩ := he i hi
-    simp only [pcInv, Owned] at hp
-    have : i ≠ j := by
-      intro e; subst e; rw [hp.1.2.1] at b; cases b
-    simp [upd_other _ _ _ _ this, a, b]
-  case sRename =>
-    simp only [pcInv, Owned] at hp
-    simp [hp.1.1]
+    intro hj
+    simp only [List.mem_append, List.mem_singleton] at hj
+    rcases hj with hj | hj
+    · obtain ⟨a, b⟩ := ht j hj
+      have : j ≠ s.nIno := Nat.ne_of_lt a
+      simp [upd_other _ _ _ _ this, b]; omega
+    · subst hj; simp
+  case sWrite i k =>
+    intro hj
+    obtain ⟨a, b⟩ := ht j hj
+    by_cases e : j = i
+    · subst e; simp [a, b]
+    · simp [upd_other _ _ _ _ e, a, b]
+  case sUtime i =>
+    split
+    · intro hj
+      obtain ⟨a, b⟩ := ht j hj
+      by_cases e : j = i
+      · subst e; simp [a, b]
+      · simp [upd_other _ _ _ _ e, a, b]
+    · split <;> exact ht j
+  case sRename i =>
+    split
+    · intro hj
+      obtain ⟨hj1, e⟩ := mem_filter_ne hj
+      obtain ⟨a, b⟩ := ht j hj1
+      simp [upd_other _ _ _ _ e, a, b]
+    · split <;> exact ht j
+  case sUnlinkTmp i =>
+    split
+    · intro hj
+      exact ht j (mem_filter_ne hj).1
+    · split <;> exact ht j
+  case cUnlink todo =>
+    cases todo with
+    | nil => exact ht j
+    | cons n rest =>
+      simp only
+      split
+      · cases n
+        · exact ht j
+        · intro hj; exact ht j (mem_filter_ne hj).1
+      · split <;> exact ht j
+  all_goals (try (split <;> (try split) <;> (try split)))
+  all_goals (try exact ht j)
+
+theorem stepProc_selfData (s : State) (p : Nat) :
+    ((stepProc s p).procs p).data = (s.procs p).data ∨ ((stepProc s p).procs p).data = s.ver := by
+  cases hpc : (s.procs p).pc <;> simp only [stepProc, hpc]
+  case sParse => right; simp
+  case cUnlink todo =>
+    cases todo with
+    | nil => left; simp [State.setPc]
+    | cons n rest =>
+      simp only
+      split
+      · cases n <;> (left; simp [State.setPc, unlinkName])
+      · split <;> (left; simp [State.setPc])
+  all_goals (try (split <;> (try split) <;> (try split)))
+  all_goals (left; simp [State.setPc])
 
 theorem stepProc_dataLe (s : State) (p : Nat) (h : Inv s) (i : Nat) (hi : i < (stepProc s p).nIno) :
     ((stepProc s p).inodes i).data ≤ (stepProc s p).ver := by
@@ -257,17 +385,25 @@ theorem stepProc_dataLe (s : State) (p : Nat) (h : Inv s) (i : Nat) (hi : i < (s
   · revert hi
     have hpd := h.procData p
     have hp := h.pcs p
-    cases hpc : (s.procs p).pc <;> rw [hpc] at hp <;> simp only [stepProc, hpc, h.sameDevice, Bool.false_eq_true, if_false]
+    cases hpc : (s.procs p).pc <;> rw [hpc] at hp <;> simp only [stepProc, hpc]
     all_goals (try (exact False.elim hp))
-    all_goals (try (split <;> (try split) <;> (try split)))
-    all_goals (try (simp only [State.setPc]; intro hi; exact absurd hi hlt))
-    all_goals (try (intro hi; exact absurd hi hlt))
     case sMkstemp =>
       intro hi
       have : i = s.nIno := by omega
       subst this
       simp
       exact hpd (by rw [hpc]; simp)
+    case cUnlink todo =>
+      cases todo with
+      | nil => intro hi; exact absurd hi hlt
+      | cons n rest =>
+        simp only
+        split
+        · cases n <;> (intro hi; exact absurd hi hlt)
+        · split <;> (intro hi; exact absurd hi hlt)
+    all_goals (try (split <;> (try split) <;> (try split)))
+    all_goals (try (simp only [State.setPc]; intro hi; exact absurd hi hlt))
+    all_goals (try (intro hi; exact absurd hi hlt))
 
 theorem stepProc_procData (s : State) (p : Nat) (h : Inv s) (q : Nat)
     (hq : ((stepProc s p).procs q).pc ≠ .idle) : ((stepProc s p).procs q).data ≤ (stepProc s p).ver := by
@@ -275,22 +411,19 @@ theorem stepProc_procData (s : State) (p : Nat) (h : Inv s) (q : Nat)
   rw [hf.ver]
   by_cases e : q = p
   · subst e
-    rw [hf.self.1]
-    apply h.procData
-    intro hi
-    apply hq
-    simp [stepProc, hi]
+    rcases stepProc_selfData s q with a | a
+    · rw [a]
+      apply h.procData
+      intro hi
+      apply hq
+      simp [stepProc, hi]
+    · rw [a]; exact Nat.le_refl _
   · rw [hf.others q e] at hq ⊢
     exact h.procData q hq
 
-theorem stepProc_xdev (s : State) (p : Nat) : (stepProc s p).xdev = s.xdev := by
-  cases hpc : (s.procs p).pc <;> simp only [stepProc, hpc]
-  all_goals (try (split <;> (try split) <;> (try split)))
-  all_goals rfl
-
 theorem stepProc_inv (s : State) (p : Nat) (h : Inv s) : Inv (stepProc s p) where
-  sameDevice := by rw [stepProc_xdev]; exact h.sameDevice
   entry := stepProc_entry s p h
+  tmps := stepProc_tmps s p h
   dataLe := stepProc_dataLe s p h
   procData := stepProc_procData s p h
   pcs := fun q => by
@@ -304,29 +437,26 @@ theorem stepProc_inv (s : State) (p : Nat) (h : Inv s) : Inv (stepProc s p) wher
 theorem pcInv_env (s s' : State) (q : Nat) (pc : PC)
     (h1 : s'.nIno = s.nIno) (h2 : s'.inodes = s.inodes) (h3 : s.ver ≤ s'.ver)
     (h4 : ∀ v, v ≤ s.ver → s'.srcM v = s.srcM v)
-    (h5 : (s'.procs q).data = (s.procs q).data ∧ (s'.procs q).sver = (s.procs q).sver)
+    (h5 : (s'.procs q).data = (s.procs q).data ∧ (s'.procs q).sver = (s.procs q).sver ∧
+      (s'.procs q).m0 = (s.procs q).m0)
     (h : pcInv s q pc) : pcInv s' q pc := by
   have ko : ∀ i, Owned s q i → Owned s' q i := by
     intro i ⟨a, b, c, d, e⟩
     exact ⟨by rw [h1]; exact a, by rw [h2]; exact b, by rw [h2]; exact c, by rw [h2, h5.1]; exact d,
-      by rw [h2, h5.2]; exact e⟩
+      by rw [h2, h5.2.1]; exact e⟩
   have kh : ∀ i v0, Held s i v0 → Held s' i v0 := by
     intro i v0 ⟨a, b, c⟩
     exact ⟨by rw [h1]; exact a, by rw [h2]; exact b, Nat.le_trans c h3⟩
   cases pc with
   | sWrite i k => exact ⟨ko i h.1, h.2.1, by rw [h2]; exact h.2.2⟩
   | sClose i => exact ⟨ko i h.1, by rw [h2]; exact h.2⟩
-  | sRename i => exact ⟨ko i h.1, by rw [h2]; exact h.2⟩
+  | sUtime i => exact ⟨ko i h.1, by rw [h2]; exact h.2⟩
+  | sRename i => exact ⟨ko i h.1, by rw [h2]; exact h.2.1, by rw [h2, h5.2.2]; exact h.2.2⟩
   | lFstat i v0 => exact kh i v0 h
   | lStatSrc i v0 m => exact ⟨kh i v0 h.1, by rw [h2]; exact h.2⟩
   | lRead i v0 m sm =>
     obtain ⟨a, b, c, vs, d, e, f⟩ := h
     exact ⟨kh i v0 a, by rw [h2]; exact b, c, vs, d, Nat.le_trans e h3, by rw [h4 vs e]; exact f⟩
-  | xOpen i => exact h
-  | xWrite i j k => exact h
-  | xClose i j => exact h
-  | xCopystat i => exact h
-  | xUnlink i => exact h
   | done r => cases r <;> exact h
   | raised => exact h
   | _ => trivial
@@ -338,7 +468,7 @@ theorem step_inv (s : State) (e : Ev) (h : Inv s) : Inv (step s e) := by
     simp only [step]
     split
     · rename_i hidle
-      refine ⟨h.sameDevice, h.entry, h.dataLe, ?_, ?_⟩
+      refine ⟨h.entry, h.tmps, h.dataLe, ?_, ?_⟩
       · intro q hq
         by_cases e : q = p
         · subst e; simp
@@ -353,7 +483,7 @@ theorem step_inv (s : State) (e : Ev) (h : Inv s) : Inv (step s e) := by
   | crash p =>
     simp only [step]
     split
-    · refine ⟨h.sameDevice, h.entry, h.dataLe, ?_, ?_⟩
+    · refine ⟨h.entry, h.tmps, h.dataLe, ?_, ?_⟩
       · intro q hq
         by_cases e : q = p
         · subst e
@@ -370,23 +500,23 @@ theorem step_inv (s : State) (e : Ev) (h : Inv s) : Inv (step s e) := by
     · exact h
   | modify t =>
     simp only [step]
-    refine ⟨h.sameDevice, h.entry, fun i hi => Nat.le_succ_of_le (h.dataLe i hi),
+    refine ⟨h.entry, h.tmps, fun i hi => Nat.le_succ_of_le (h.dataLe i hi),
       fun q hq => Nat.le_succ_of_le (h.procData q hq), ?_⟩
     intro q
     exact pcInv_env s _ q _ rfl rfl (Nat.le_succ _)
-      (fun v hv => upd_other _ _ _ _ (by omega)) ⟨rfl, rfl⟩ (h.pcs q)
+      (fun v hv => upd_other _ _ _ _ (by omega)) ⟨rfl, rfl, rfl⟩ (h.pcs q)
   | replace m =>
     simp only [step]
-    refine ⟨h.sameDevice, h.entry, fun i hi => Nat.le_succ_of_le (h.dataLe i hi),
+    refine ⟨h.entry, h.tmps, fun i hi => Nat.le_succ_of_le (h.dataLe i hi),
       fun q hq => Nat.le_succ_of_le (h.procData q hq), ?_⟩
     intro q
     exact pcInv_env s _ q _ rfl rfl (Nat.le_succ _)
-      (fun v hv => upd_other _ _ _ _ (by omega)) ⟨rfl, rfl⟩ (h.pcs q)
+      (fun v hv => upd_other _ _ _ _ (by omega)) ⟨rfl, rfl, rfl⟩ (h.pcs q)
   | tick =>
     simp only [step]
-    refine ⟨h.sameDevice, h.entry, h.dataLe, h.procData, ?_⟩
+    refine ⟨h.entry, h.tmps, h.dataLe, h.procData, ?_⟩
     intro q
-    exact pcInv_env s _ q _ rfl rfl (Nat.le_refl _) (fun _ _ => rfl) ⟨rfl, rfl⟩ (h.pcs q)
+    exact pcInv_env s _ q _ rfl rfl (Nat.le_refl _) (fun _ _ => rfl) ⟨rfl, rfl, rfl⟩ (h.pcs q)
 
 theorem run_inv (s : State) (evs : List Ev) (h : Inv s) : Inv (run s evs) := by
   induction evs generalizing s with
@@ -398,28 +528,54 @@ theorem run_append (s : State) (a b : List Ev) : run s (a ++ b) = run (run s a) 
 
 theorem run_cons (s : State) (e : Ev) (es : List Ev) : run s (e :: es) = run (step s e) es := rfl
 
-/-- the freshness invariant: every complete pickle is the parse of a version that was
-    still current when it was stamped -/
+/-! ### freshness -/
+
+/-- the program points of a store after the source has been read -/
+def PC.parsed : PC → Bool
+  | .sStatEntry | .sStatSrc _ | .sMkstemp | .sWrite _ _ | .sClose _ | .sUtime _ | .sRename _ => true
+  | _ => false
+
+/-- the freshness invariant: a published complete pickle that carries the mtime the source has
+    NOW is the parse of the current version (and the same for what a store is about to publish) -/
 structure InvF (s : State) : Prop where
-  inoClock : ∀ i, i < s.nIno → (s.inodes i).mtime ≤ s.clock
-  mono : ∀ a b, a ≤ b → b ≤ s.ver → s.srcM a ≤ s.srcM b
-  srcClock : s.srcM s.ver ≤ s.clock
-  fresh : ∀ i, i < s.nIno → (s.inodes i).len = full → (s.inodes i).data < s.ver →
-    (s.inodes i).mtime < s.srcM ((s.inodes i).data + 1)
+  pubStamp : ∀ i, i < s.nIno → (s.inodes i).pub = true → ∃ v, v ≤ s.ver ∧ (s.inodes i).mtime = s.srcM v
+  procStamp : ∀ p, (s.procs p).pc ≠ .idle → ∃ v, v ≤ s.ver ∧ (s.procs p).m0 = s.srcM v
+  cur : ∀ i, i < s.nIno → (s.inodes i).pub = true → (s.inodes i).len = full →
+    (s.inodes i).mtime = s.srcM s.ver → (s.inodes i).data = s.ver
+  proc : ∀ p, (s.procs p).pc.parsed = true → (s.procs p).m0 = s.srcM s.ver → (s.procs p).data = s.ver
+  reads : ∀ p i v0 m sm, (s.procs p).pc = .lRead i v0 m sm → (s.inodes i).len = full → v0 ≤ (s.inodes i).data
   rets : ∀ p r, (s.procs p).pc = .done (some r) → r.vStart ≤ r.data
 
-theorem invF_same (s s' : State) (hf : InvF s) (h1 : s'.nIno = s.nIno) (h2 : s'.inodes = s.inodes)
-    (h3 : s'.ver = s.ver) (h4 : s'.srcM = s.srcM) (h5 : s'.clock = s.clock)
-    (h6 : ∀ q r, (s'.procs q).pc = .done (some r) → (s.procs q).pc = .done (some r) ∨ r.vStart ≤ r.data) :
-    InvF s' where
-  inoClock := by rw [h1, h2, h5]; exact hf.inoClock
-  mono := by rw [h3, h4]; exact hf.mono
-  srcClock := by rw [h3, h4, h5]; exact hf.srcClock
-  fresh := by rw [h1, h2, h3, h4]; exact hf.fresh
-  rets := fun q r hq => by
-    rcases h6 q r hq with a | a
-    · exact hf.rets q r a
-    · exact a
+theorem newMtimeOK_spec (s : State) (c : Nat) (h : newMtimeOK s c = true) : ∀ v, v ≤ s.ver → s.srcM v ≠ c := by
+  intro v hv
+  simp only [newMtimeOK, List.all_eq_true, List.mem_range] at h
+  have := h v (by omega)
+  simpa using this
+
+/-- a new source version with a fresh mtime `c` -/
+theorem invF_newVersion (s : State) (c : Nat) (clock' : Nat) (hf : InvF s) (hc : ∀ v, v ≤ s.ver → s.srcM v ≠ c) :
+    InvF { s with clock := clock', ver := s.ver + 1, srcM := upd s.srcM (s.ver + 1) c } where
+  pubStamp := by
+    intro i hi hp
+    obtain ⟨v, hv, e⟩ := hf.pubStamp i hi hp
+    exact ⟨v, Nat.le_succ_of_le hv, by simp only [upd_other _ _ _ _ (show v ≠ s.ver + 1 by omega)]; exact e⟩
+  procStamp := by
+    intro p hp
+    obtain ⟨v, hv, e⟩ := hf.procStamp p hp
+    exact ⟨v, Nat.le_succ_of_le hv, by simp only [upd_other _ _ _ _ (show v ≠ s.ver + 1 by omega)]; exact e⟩
+  cur := by
+    intro i hi hp _ hm
+    obtain ⟨v, hv, e⟩ := hf.pubStamp i hi hp
+    simp only [upd_same] at hm
+    exact absurd (e.symm.trans hm) (hc v hv)
+  proc := by
+    intro p hp hm
+    have hne : (s.procs p).pc ≠ .idle := by intro hi; rw [hi] at hp; cases hp
+    obtain ⟨v, hv, e⟩ := hf.procStamp p hne
+    simp only [upd_same] at hm
+    exact absurd (e.symm.trans hm) (hc v hv)
+  reads := hf.reads
+  rets := hf.rets
 
 theorem setPc_done (s : State) (p q : Nat) (pc : PC) (r : Ret) (hne : pc ≠ .done (some r))
     (h : ((s.setPc p pc).procs q).pc = .done (some r)) : (s.procs q).pc = .done (some r) := by
@@ -433,195 +589,396 @@ theorem upd_done (s : State) (p q : Nat) (pr : Proc) (r : Ret) (hne : pr.pc ≠ 
   · subst e; simp at h; exact absurd h hne
   · simpa [upd_other _ _ _ _ e] using h
 
-theorem stepProc_invF (s : State) (p : Nat) (h : Inv s) (hf : InvF s) (ok : evOK s (.step p) = true) :
-    InvF (stepProc s p) := by
-  have hp := h.pcs p
-  cases hpc : (s.procs p).pc <;> rw [hpc] at hp <;>
-    simp only [stepProc, hpc, statEntryCatchesENOENT, openCatchesENOENT, unpickleCatchesAll, brokenIsUnlinked,
-      unlinkCatchesENOENT, stampCatchesENOENT, loadByFd, if_true, h.sameDevice, Bool.false_eq_true, if_false]
-  all_goals (try (exact False.elim hp))
-  all_goals (try (split <;> (try split)))
-  case lRead.isTrue i v0 m sm hc =>
-    refine invF_same s _ hf rfl rfl rfl rfl rfl ?_
+/-- which inodes a system call publishes -/
+theorem stepProc_pub (s : State) (p : Nat) (h : Inv s) (i : Nat) (hi : i < (stepProc s p).nIno)
+    (hpub : ((stepProc s p).inodes i).pub = true) :
+    (i < s.nIno ∧ (s.inodes i).pub = true ∧ (stepProc s p).inodes i = s.inodes i) ∨
+    (i < s.nIno ∧ (s.procs p).pc = .sRename i ∧ (stepProc s p).inodes i = { s.inodes i with pub := true }) := by
+  have hf := stepProc_frame s p h
+  by_cases hlt : i < s.nIno
+  · by_cases hb : (s.inodes i).pub = true
+    · left
+      refine ⟨hlt, hb, ?_⟩
+      rcases (hf.inodes i hlt).2.2.2 with ⟨_, d⟩ | d
+      · rw [hb] at d; cases d
+      · exact d
+    · right
+      revert hpub
+      have hp := h.pcs p
+      cases hpc : (s.procs p).pc <;> rw [hpc] at hp <;> simp only [stepProc, hpc]
+      all_goals (try (exact False.elim hp))
+      case sMkstemp =>
+        have : i ≠ s.nIno := Nat.ne_of_lt hlt
+        simp only [upd_other _ _ _ _ this]; intro hpub; exact absurd hpub hb
+      case sWrite j k =>
+        by_cases e : i = j
+        · subst e; simp only [upd_same]; intro hpub; exact absurd hpub hb
+        · simp only [upd_other _ _ _ _ e]; intro hpub; exact absurd hpub hb
+      case sUtime j =>
+        split
+        · by_cases e : i = j
+          · subst e; simp only [upd_same]; intro hpub; exact absurd hpub hb
+          · simp only [upd_other _ _ _ _ e]; intro hpub; exact absurd hpub hb
+        · split <;> (intro hpub; exact absurd hpub hb)
+      case sRename j =>
+        split
+        · by_cases e : i = j
+          · subst e; simp only [upd_same]; intro _; exact ⟨hlt, trivial, trivial⟩
+          · simp only [upd_other _ _ _ _ e]; intro hpub; exact absurd hpub hb
+        · split <;> (intro hpub; exact absurd hpub hb)
+      case cUnlink todo =>
+        cases todo with
+        | nil => intro hpub; exact absurd hpub hb
+        | cons n rest =>
+          simp only
+          split
+          · cases n <;> (intro hpub; exact absurd hpub hb)
+          · split <;> (intro hpub; exact absurd hpub hb)
+      all_goals (try (split <;> (try split) <;> (try split)))
+      all_goals (try (intro hpub; exact absurd hpub hb))
+  · exfalso
+    revert hi hpub
+    have hp := h.pcs p
+    cases hpc : (s.procs p).pc <;> rw [hpc] at hp <;> simp only [stepProc, hpc]
+    all_goals (try (exact False.elim hp))
+    case sMkstemp =>
+      intro hi
+      have : i = s.nIno := by omega
+      subst this
+      simp
+    case cUnlink todo =>
+      cases todo with
+      | nil => intro hi; exact absurd hi hlt
+      | cons n rest =>
+        simp only
+        split
+        · cases n <;> (intro hi; exact absurd hi hlt)
+        · split <;> (intro hi; exact absurd hi hlt)
+    all_goals (try (split <;> (try split) <;> (try split)))
+    all_goals (try (intro hi; exact absurd hi hlt))
+
+/-- a step that changes only the record of process `p` (and possibly names in the directory) -/
+theorem invF_procOnly (s s' : State) (p : Nat) (pr' : Proc) (hf : InvF s)
+    (h1 : s'.nIno = s.nIno) (h2 : s'.inodes = s.inodes) (h3 : s'.ver = s.ver) (h4 : s'.srcM = s.srcM)
+    (h6 : s'.procs = upd s.procs p pr') (hm0 : pr'.m0 = (s.procs p).m0)
+    (hidle : pr'.pc ≠ .idle → (s.procs p).pc ≠ .idle)
+    (hproc : pr'.pc.parsed = true → pr'.m0 = s.srcM s.ver → pr'.data = s.ver)
+    (hreads : ∀ i v0 m sm, pr'.pc = .lRead i v0 m sm → (s.inodes i).len = full → v0 ≤ (s.inodes i).data)
+    (hrets : ∀ r, pr'.pc = .done (some r) → r.vStart ≤ r.data) : InvF s' where
+  pubStamp := by rw [h1, h2, h3, h4]; exact hf.pubStamp
+  procStamp := by
+    intro q hq
+    rw [h3, h4]
+    by_cases e : q = p
+    · subst e
+      rw [h6] at hq ⊢
+      simp only [upd_same] at hq ⊢
+      rw [hm0]; exact hf.procStamp q (hidle hq)
+    · rw [h6, upd_other _ _ _ _ e] at hq ⊢; exact hf.procStamp q hq
+  cur := by rw [h1, h2, h3, h4]; exact hf.cur
+  proc := by
+    intro q hq
+    rw [h3, h4]
+    by_cases e : q = p
+    · subst e
+      rw [h6] at hq ⊢
+      simp only [upd_same] at hq ⊢
+      exact hproc hq
+    · rw [h6, upd_other _ _ _ _ e] at hq ⊢; exact hf.proc q hq
+  reads := by
+    intro q i v0 m sm hq
+    rw [h2]
+    by_cases e : q = p
+    · subst e
+      rw [h6] at hq
+      simp only [upd_same] at hq
+      exact hreads i v0 m sm hq
+    · rw [h6, upd_other _ _ _ _ e] at hq; exact hf.reads q i v0 m sm hq
+  rets := by
     intro q r hq
     by_cases e : q = p
     · subst e
-      right
-      simp [State.setPc] at hq
-      subst hq
-      simp only [pcInv, Held] at hp
-      obtain ⟨⟨h1, h2, h3⟩, h4, h5, vs, h6, h7, h8⟩ := hp
-      have hc' : (s.inodes i).len = full := by simpa [Inode.complete] using hc
-      have hfr := hf.fresh i h1 hc'
-      have hd := h.dataLe i h1
-      show v0 ≤ (s.inodes i).data
-      by_cases hlt : (s.inodes i).data < v0
-      · have a := hfr (by omega)
-        have b := hf.mono ((s.inodes i).data + 1) vs (by omega) h7
-        omega
-      · omega
-    · left; simpa [State.setPc, upd_other _ _ _ _ e] using hq
-  all_goals (try exact hf)
-  all_goals (try (refine invF_same s _ hf rfl rfl rfl rfl rfl ?_; intro q r hq; left;
-                  first | exact setPc_done s p q _ r (by simp) hq | exact upd_done s p q _ r (by simp) hq))
-  case sMkstemp =>
-    refine ⟨?_, hf.mono, hf.srcClock, ?_, ?_⟩
-    · intro i hi
-      by_cases e : i = s.nIno
-      · subst e; simp
-      · simp only [upd_other _ _ _ _ e]; exact hf.inoClock i (by simp at hi; omega)
-    · intro i hi
-      by_cases e : i = s.nIno
-      · subst e; simp [full]
-      · simp only [upd_other _ _ _ _ e]; exact hf.fresh i (by simp at hi; omega)
-    · intro q r hq; exact hf.rets q r (upd_done s p q _ r (by simp) hq)
-  case sWrite.isTrue i k hk =>
-    simp only [pcInv, Owned] at hp
-    have hdat : (s.procs p).data = s.ver := by simpa [evOK, hpc] using ok
-    refine ⟨?_, hf.mono, hf.srcClock, ?_, ?_⟩
-    · intro j hj
-      by_cases e : j = i
-      · subst e; simp
-      · simp only [upd_other _ _ _ _ e]; exact hf.inoClock j hj
-    · intro j hj
-      by_cases e : j = i
-      · subst e; simp [hp.1.2.2.2.1, hdat]
-      · simp only [upd_other _ _ _ _ e]; exact hf.fresh j hj
-    · intro q r hq; exact hf.rets q r (upd_done s p q _ r (by simp) hq)
-  case sWrite.isFalse i k hk =>
-    simp only [pcInv, Owned] at hp
-    refine ⟨?_, hf.mono, hf.srcClock, ?_, ?_⟩
-    · intro j hj
-      by_cases e : j = i
-      · subst e; simp
-      · simp only [upd_other _ _ _ _ e]; exact hf.inoClock j hj
-    · intro j hj
-      by_cases e : j = i
-      · subst e; simp; intro h1; exact absurd h1 hk
-      · simp only [upd_other _ _ _ _ e]; exact hf.fresh j hj
-    · intro q r hq; exact hf.rets q r (upd_done s p q _ r (by simp) hq)
-  case sRename i =>
-    refine ⟨?_, hf.mono, hf.srcClock, ?_, ?_⟩
-    · intro j hj
-      by_cases e : j = i
-      · subst e; simpa using hf.inoClock j hj
-      · simp only [upd_other _ _ _ _ e]; exact hf.inoClock j hj
-    · intro j hj
-      by_cases e : j = i
-      · subst e; simpa using hf.fresh j hj
-      · simp only [upd_other _ _ _ _ e]; exact hf.fresh j hj
-    · intro q r hq; exact hf.rets q r (upd_done s p q _ r (by simp) hq)
+      rw [h6] at hq
+      simp only [upd_same] at hq
+      exact hrets r hq
+    · rw [h6, upd_other _ _ _ _ e] at hq; exact hf.rets q r hq
 
-theorem step_invF (s : State) (e : Ev) (h : Inv s) (hf : InvF s) (ok : evOK s e = true) :
+/-- a store step that creates or modifies an inode that is not published -/
+theorem invF_private (s s' : State) (p i : Nat) (n : Inode) (pr' : Proc) (h : Inv s) (hf : InvF s)
+    (hn : ∀ j, j < s'.nIno → j < s.nIno ∨ j = i)
+    (hi : s'.inodes = upd s.inodes i n) (hnp : n.pub = false) (hip : i < s.nIno → (s.inodes i).pub = false)
+    (h3 : s'.ver = s.ver) (h4 : s'.srcM = s.srcM)
+    (h6 : s'.procs = upd s.procs p pr') (hm0 : pr'.m0 = (s.procs p).m0)
+    (hidle : pr'.pc ≠ .idle → (s.procs p).pc ≠ .idle)
+    (hproc : pr'.pc.parsed = true → pr'.m0 = s.srcM s.ver → pr'.data = s.ver)
+    (hnoread : ∀ j v0 m sm, pr'.pc ≠ .lRead j v0 m sm)
+    (hnodone : ∀ r, pr'.pc ≠ .done (some r)) : InvF s' where
+  pubStamp := by
+    intro j hj hp
+    rw [h3, h4]
+    rw [hi] at hp ⊢
+    by_cases e : j = i
+    · subst e; simp only [upd_same] at hp; rw [hnp] at hp; cases hp
+    · simp only [upd_other _ _ _ _ e] at hp ⊢
+      rcases hn j hj with a | a
+      · exact hf.pubStamp j a hp
+      · exact absurd a e
+  procStamp := by
+    intro q hq
+    rw [h3, h4]
+    by_cases e : q = p
+    · subst e
+      rw [h6] at hq ⊢
+      simp only [upd_same] at hq ⊢
+      rw [hm0]; exact hf.procStamp q (hidle hq)
+    · rw [h6, upd_other _ _ _ _ e] at hq ⊢; exact hf.procStamp q hq
+  cur := by
+    intro j hj hp
+    rw [h3, h4]
+    rw [hi] at hp ⊢
+    by_cases e : j = i
+    · subst e; simp only [upd_same] at hp; rw [hnp] at hp; cases hp
+    · simp only [upd_other _ _ _ _ e] at hp ⊢
+      rcases hn j hj with a | a
+      · exact hf.cur j a hp
+      · exact absurd a e
+  proc := by
+    intro q hq
+    rw [h3, h4]
+    by_cases e : q = p
+    · subst e
+      rw [h6] at hq ⊢
+      simp only [upd_same] at hq ⊢
+      exact hproc hq
+    · rw [h6, upd_other _ _ _ _ e] at hq ⊢; exact hf.proc q hq
+  reads := by
+    intro q j v0 m sm hq
+    by_cases e : q = p
+    · subst e
+      rw [h6] at hq
+      simp only [upd_same] at hq
+      exact absurd hq (hnoread j v0 m sm)
+    · rw [h6, upd_other _ _ _ _ e] at hq
+      have hh := h.pcs q
+      rw [hq] at hh
+      obtain ⟨⟨a, b, _⟩, _⟩ := hh
+      have e2 : j ≠ i := by
+        intro e2; subst e2; rw [hip a] at b; cases b
+      rw [hi, upd_other _ _ _ _ e2]
+      exact hf.reads q j v0 m sm hq
+  rets := by
+    intro q r hq
+    by_cases e : q = p
+    · subst e
+      rw [h6] at hq
+      simp only [upd_same] at hq
+      exact absurd hq (hnodone r)
+    · rw [h6, upd_other _ _ _ _ e] at hq; exact hf.rets q r hq
+
+/-- the publishing rename -/
+theorem invF_publish (s : State) (p i : Nat) (h : Inv s) (hf : InvF s) (hpc : (s.procs p).pc = .sRename i)
+    (s' : State) (h1 : s'.nIno = s.nIno) (h2 : s'.inodes = upd s.inodes i { s.inodes i with pub := true })
+    (h3 : s'.ver = s.ver) (h4 : s'.srcM = s.srcM)
+    (h6 : s'.procs = upd s.procs p { s.procs p with pc := .done none }) : InvF s' := by
+  have hp := h.pcs p
+  rw [hpc] at hp
+  obtain ⟨⟨o1, o2, o3, o4, o5⟩, hlen, hmt⟩ := hp
+  have hne : (s.procs p).pc ≠ .idle := by rw [hpc]; simp
+  have hpar : (s.procs p).pc.parsed = true := by rw [hpc]; rfl
+  refine ⟨?_, ?_, ?_, ?_, ?_, ?_⟩
+  · intro j hj hpub
+    rw [h3, h4, h2]
+    by_cases e : j = i
+    · subst e; simp only [upd_same]; rw [hmt]; exact hf.procStamp p hne
+    · rw [h2, upd_other _ _ _ _ e] at hpub
+      rw [upd_other _ _ _ _ e]; exact hf.pubStamp j (by rw [← h1]; exact hj) hpub
+  · intro q hq
+    rw [h3, h4]
+    by_cases e : q = p
+    · subst e; rw [h6]; simp only [upd_same]; exact hf.procStamp q hne
+    · rw [h6, upd_other _ _ _ _ e] at hq ⊢; exact hf.procStamp q hq
+  · intro j hj hpub hl hm
+    rw [h3, h4] at hm
+    rw [h3]
+    by_cases e : j = i
+    · subst e
+      rw [h2] at hm ⊢
+      simp only [upd_same] at hm ⊢
+      rw [o4]; exact hf.proc p hpar (hmt ▸ hm)
+    · rw [h2, upd_other _ _ _ _ e] at hpub hl hm ⊢
+      exact hf.cur j (by rw [← h1]; exact hj) hpub hl hm
+  · intro q hq
+    rw [h3, h4]
+    by_cases e : q = p
+    · subst e; rw [h6] at hq; simp [PC.parsed] at hq
+    · rw [h6, upd_other _ _ _ _ e] at hq ⊢; exact hf.proc q hq
+  · intro q j v0 m sm hq
+    by_cases e : q = p
+    · subst e; rw [h6] at hq; simp at hq
+    · rw [h6, upd_other _ _ _ _ e] at hq
+      have hh := h.pcs q
+      rw [hq] at hh
+      obtain ⟨⟨a, b, _⟩, _⟩ := hh
+      have e2 : j ≠ i := by
+        intro e2; subst e2; rw [o2] at b; cases b
+      rw [h2, upd_other _ _ _ _ e2]
+      exact hf.reads q j v0 m sm hq
+  · intro q r hq
+    by_cases e : q = p
+    · subst e; rw [h6] at hq; simp at hq
+    · rw [h6, upd_other _ _ _ _ e] at hq; exact hf.rets q r hq
+
+theorem stepProc_invF (s : State) (p : Nat) (h : Inv s) (hf : InvF s) : InvF (stepProc s p) := by
+  have hp := h.pcs p
+  have hproc : (s.procs p).pc.parsed = true → (s.procs p).m0 = s.srcM s.ver → (s.procs p).data = s.ver :=
+    hf.proc p
+  cases hpc : (s.procs p).pc <;> rw [hpc] at hp hproc <;>
+    simp only [stepProc, hpc, statEntryCatchesENOENT, openCatchesENOENT, unpickleCatchesAll, brokenIsUnlinked,
+      unlinkCatchesENOENT, stampCatchesENOENT, loadByFd, utimeCatchesENOENT, moveCatchesENOENT, if_true]
+  all_goals (try (exact False.elim hp))
+  case idle => exact hf
+  case done r => exact hf
+  case crashed => exact hf
+  case sParse =>
+    exact invF_procOnly s _ p _ hf rfl rfl rfl rfl rfl rfl (by intro _; rw [hpc]; simp) (fun _ _ => rfl)
+      (by simp) (by simp)
+  case sMkstemp =>
+    refine invF_private s _ p s.nIno _ _ h hf ?_ rfl rfl ?_ rfl rfl rfl rfl (by intro _; rw [hpc]; simp)
+      (fun _ hm => hproc rfl hm) (by simp) (by simp)
+    · intro j hj; simp at hj; omega
+    · intro hlt; exact absurd hlt (Nat.lt_irrefl _)
+  case sWrite i k =>
+    obtain ⟨⟨o1, o2, o3, o4, o5⟩, _, _⟩ := hp
+    refine invF_private s _ p i _ _ h hf (fun j hj => Or.inl hj) rfl o2 (fun _ => o2) rfl rfl rfl rfl
+      (by intro _; rw [hpc]; simp) ?_ ?_ ?_
+    · intro _ hm; exact hproc rfl hm
+    · intro j v0 m sm; split <;> simp
+    · intro r; split <;> simp
+  case sUtime i =>
+    obtain ⟨⟨o1, o2, o3, o4, o5⟩, _⟩ := hp
+    split
+    · exact invF_private s _ p i _ _ h hf (fun j hj => Or.inl hj) rfl o2 (fun _ => o2) rfl rfl rfl rfl
+        (by intro _; rw [hpc]; simp) (fun _ hm => hproc rfl hm) (by simp) (by simp)
+    · exact invF_procOnly s _ p _ hf rfl rfl rfl rfl rfl rfl (by intro _; rw [hpc]; simp) (by simp [PC.parsed])
+        (by simp) (by simp)
+  case sRename i =>
+    split
+    · exact invF_publish s p i h hf hpc _ rfl rfl rfl rfl rfl
+    · exact invF_procOnly s _ p _ hf rfl rfl rfl rfl rfl rfl (by intro _; rw [hpc]; simp) (by simp [PC.parsed])
+        (by simp) (by simp)
+  case lStatSrc i v0 m =>
+    obtain ⟨⟨a1, a2, a3⟩, a4⟩ := hp
+    split
+    · exact invF_procOnly s _ p _ hf rfl rfl rfl rfl rfl rfl (by intro _; rw [hpc]; simp) (by simp [PC.parsed])
+        (by simp) (by simp)
+    · rename_i hs
+      refine invF_procOnly s _ p _ hf rfl rfl rfl rfl rfl rfl (by intro _; rw [hpc]; simp) (by simp [PC.parsed])
+        ?_ (by simp)
+      intro i' v0' m' sm' heq hl
+      simp only [PC.lRead.injEq] at heq
+      obtain ⟨e1, e2, _, _⟩ := heq
+      rw [← e1] at hl ⊢
+      rw [← e2]
+      simp [loadStale] at hs
+      have := hf.cur i a1 a2 hl (by rw [← a4]; exact hs)
+      omega
+  case lRead i v0 m sm =>
+    split
+    · rename_i hc
+      refine invF_procOnly s _ p _ hf rfl rfl rfl rfl rfl rfl (by intro _; rw [hpc]; simp) (by simp [PC.parsed])
+        (by simp) ?_
+      intro r heq
+      simp only [PC.done.injEq, Option.some.injEq] at heq
+      subst heq
+      exact hf.reads p i v0 m sm hpc (by simpa [Inode.complete] using hc)
+    · exact invF_procOnly s _ p _ hf rfl rfl rfl rfl rfl rfl (by intro _; rw [hpc]; simp) (by simp [PC.parsed])
+        (by simp) (by simp)
+  case cUnlink todo =>
+    cases todo with
+    | nil =>
+      exact invF_procOnly s _ p _ hf rfl rfl rfl rfl rfl rfl (by intro _; rw [hpc]; simp) (by simp [PC.parsed])
+        (by simp) (by simp)
+    | cons n rest =>
+      simp only
+      split
+      · cases n <;>
+          exact invF_procOnly s _ p _ hf rfl rfl rfl rfl rfl rfl (by intro _; rw [hpc]; simp)
+            (by split <;> simp [PC.parsed]) (by intro i v0 m sm; split <;> simp) (by intro r; split <;> simp)
+      · exact invF_procOnly s _ p _ hf rfl rfl rfl rfl rfl rfl (by intro _; rw [hpc]; simp)
+          (by split <;> simp [PC.parsed]) (by intro i v0 m sm; split <;> simp) (by intro r; split <;> simp)
+  all_goals (try (split <;> (try split)))
+  all_goals
+    first
+    | exact invF_procOnly s _ p _ hf rfl rfl rfl rfl rfl rfl (by intro _; rw [hpc]; simp)
+        (fun _ hm => hproc rfl hm) (by simp) (by simp)
+    | exact invF_procOnly s _ p _ hf rfl rfl rfl rfl rfl rfl (by intro _; rw [hpc]; simp) (by simp [PC.parsed])
+        (by simp) (by simp)
+
+theorem step_invF (s : State) (e : Ev) (h : Inv s) (hf : InvF s) (ok : evDistinct s e = true) :
     InvF (step s e) := by
   cases e with
-  | step p => exact stepProc_invF s p h hf ok
+  | step p => exact stepProc_invF s p h hf
   | spawn p op sv =>
     simp only [step]
     split
-    · refine invF_same s _ hf rfl rfl rfl rfl rfl ?_
-      intro q r hq; left
-      exact upd_done s p q _ r (by cases op <;> simp [firstPc]) hq
+    · refine ⟨hf.pubStamp, ?_, hf.cur, ?_, ?_, ?_⟩
+      · intro q hq
+        by_cases e : q = p
+        · subst e; simp only [upd_same]; exact ⟨s.ver, Nat.le_refl _, rfl⟩
+        · simp only [upd_other _ _ _ _ e] at hq ⊢; exact hf.procStamp q hq
+      · intro q hq
+        by_cases e : q = p
+        · subst e; simp only [upd_same] at hq; cases op <;> simp [firstPc, PC.parsed] at hq
+        · simp only [upd_other _ _ _ _ e] at hq ⊢; exact hf.proc q hq
+      · intro q i v0 m sm hq
+        by_cases e : q = p
+        · subst e; simp only [upd_same] at hq; cases op <;> simp [firstPc] at hq
+        · simp only [upd_other _ _ _ _ e] at hq; exact hf.reads q i v0 m sm hq
+      · intro q r hq
+        by_cases e : q = p
+        · subst e; simp only [upd_same] at hq; cases op <;> simp [firstPc] at hq
+        · simp only [upd_other _ _ _ _ e] at hq; exact hf.rets q r hq
     · exact hf
   | crash p =>
     simp only [step]
     split
-    · refine invF_same s _ hf rfl rfl rfl rfl rfl ?_
-      intro q r hq; left
-      exact setPc_done s p q _ r (by simp) hq
+    · rename_i hr
+      exact invF_procOnly s _ p _ hf rfl rfl rfl rfl rfl rfl
+        (by intro _ hi; rw [hi] at hr; cases hr) (by simp [PC.parsed]) (by simp) (by simp)
     · exact hf
   | modify t =>
-    have ht : t = true := by simpa [evOK] using ok
-    subst ht
-    simp only [step, if_true]
-    refine ⟨?_, ?_, ?_, ?_, hf.rets⟩
-    · intro i hi; exact Nat.le_succ_of_le (hf.inoClock i hi)
-    · intro a b hab hb
-      have hb : b ≤ s.ver + 1 := hb
-      by_cases eb : b = s.ver + 1
-      · subst eb
-        simp only [upd_same]
-        by_cases ea : a = s.ver + 1
-        · subst ea; simp
-        · simp only [upd_other _ _ _ _ ea]
-          have := hf.mono a s.ver (by omega) (Nat.le_refl _)
-          have := hf.srcClock
-          omega
-      · have ea : a ≠ s.ver + 1 := by omega
-        simp only [upd_other _ _ _ _ ea, upd_other _ _ _ _ eb]
-        exact hf.mono a b hab (by omega)
-    · simp
-    · intro i hi hl hlt
-      have hd := h.dataLe i hi
-      by_cases e1 : (s.inodes i).data = s.ver
-      · rw [e1]; simp only [upd_same]
-        have := hf.inoClock i hi
-        omega
-      · have e2 : (s.inodes i).data + 1 ≠ s.ver + 1 := by omega
-        simp only [upd_other _ _ _ _ e2]
-        exact hf.fresh i hi hl (by omega)
-  | replace m => simp [evOK] at ok
+    simp only [step]
+    exact invF_newVersion s _ _ hf (newMtimeOK_spec s _ (by simpa [evDistinct] using ok))
+  | replace m =>
+    simp only [step]
+    exact invF_newVersion s m s.clock hf (newMtimeOK_spec s _ (by simpa [evDistinct] using ok))
   | tick =>
     simp only [step]
-    exact ⟨fun i hi => Nat.le_succ_of_le (hf.inoClock i hi), hf.mono, Nat.le_succ_of_le hf.srcClock,
-      hf.fresh, hf.rets⟩
+    exact ⟨hf.pubStamp, hf.procStamp, hf.cur, hf.proc, hf.reads, hf.rets⟩
 
-theorem run_invF (s : State) (evs : List Ev) (h : Inv s) (hf : InvF s) (ok : histOK s evs = true) :
+theorem run_invF (s : State) (evs : List Ev) (h : Inv s) (hf : InvF s) (ok : histDistinctMtimes s evs = true) :
     InvF (run s evs) := by
   induction evs generalizing s with
   | nil => exact hf
   | cons e es ih =>
-    simp only [histOK, Bool.and_eq_true] at ok
+    simp only [histDistinctMtimes, Bool.and_eq_true] at ok
     exact ih (step s e) (step_inv s e h) (step_invF s e h hf ok.1) ok.2
 
-/-- the two halves of the hypothesis, stated separately, give `histOK` -/
-theorem histOK_of (s : State) (evs : List Ev) (h1 : histNoModDuringStore s evs = true)
-    (h2 : histFineClock evs = true) : histOK s evs = true := by
-  induction evs generalizing s with
-  | nil => rfl
-  | cons e es ih =>
-    simp only [histNoModDuringStore, Bool.and_eq_true] at h1
-    cases e with
-    | modify t =>
-      simp only [histFineClock, Bool.and_eq_true] at h2
-      obtain ⟨rfl, h2'⟩ := h2
-      simp [histOK, evOK, ih _ h1.2 h2']
-    | step p =>
-      simp only [histFineClock] at h2
-      simp only [histOK, Bool.and_eq_true]
-      exact ⟨by simpa [evOK, evNoModDuringStore] using h1.1, ih _ h1.2 h2⟩
-    | spawn p op sv => simp only [histFineClock] at h2; simp [histOK, evOK, ih _ h1.2 h2]
-    | crash p => simp only [histFineClock] at h2; simp [histOK, evOK, ih _ h1.2 h2]
-    | tick => simp only [histFineClock] at h2; simp [histOK, evOK, ih _ h1.2 h2]
-    | replace m => simp [histFineClock] at h2
-
-/-- initial states for the freshness theorem: additionally timestamps are not from the
-    future and a complete initial entry is not a stale parse that looks fresh -/
+/-- initial states for the freshness theorem: additionally the initial entry carries the mtime of
+    some version of the source (the one it was made from), and if that is the mtime of the CURRENT
+    version and the entry is a complete pickle, it is the parse of the current version -/
 structure InitF (s : State) : Prop extends Init s where
-  inoClock : ∀ i, i < s.nIno → (s.inodes i).mtime ≤ s.clock
-  mono : ∀ a b, a ≤ b → b ≤ s.ver → s.srcM a ≤ s.srcM b
-  srcClock : s.srcM s.ver ≤ s.clock
-  fresh : ∀ i, i < s.nIno → (s.inodes i).len = full → (s.inodes i).data < s.ver →
-    (s.inodes i).mtime < s.srcM ((s.inodes i).data + 1)
+  pubStamp : ∀ i, i < s.nIno → (s.inodes i).pub = true → ∃ v, v ≤ s.ver ∧ (s.inodes i).mtime = s.srcM v
+  cur : ∀ i, i < s.nIno → (s.inodes i).pub = true → (s.inodes i).len = full →
+    (s.inodes i).mtime = s.srcM s.ver → (s.inodes i).data = s.ver
 
 theorem InitF.invF {s : State} (h : InitF s) : InvF s where
-  inoClock := h.inoClock
-  mono := h.mono
-  srcClock := h.srcClock
-  fresh := h.fresh
+  pubStamp := h.pubStamp
+  procStamp := fun p hp => absurd (h.idle p) hp
+  cur := h.cur
+  proc := fun p hp => by rw [h.idle p] at hp; cases hp
+  reads := fun p i v0 m sm hp => by rw [h.idle p] at hp; cases hp
   rets := fun p r hp => by rw [h.idle p] at hp; cases hp
-
-/-- how a system call can change what the entry name points to -/
-theorem stepProc_entry_cases (s : State) (p : Nat) (h : Inv s) :
-    (stepProc s p).entry = s.entry ∨ (stepProc s p).entry = none ∨
-      ∃ i, (s.procs p).pc = .sRename i ∧ (stepProc s p).entry = some i := by
-  have hp := h.pcs p
-  cases hpc : (s.procs p).pc <;> rw [hpc] at hp <;> simp only [stepProc, hpc, h.sameDevice, Bool.false_eq_true, if_false]
-  all_goals (try (exact False.elim hp))
-  all_goals (try (split <;> (try split) <;> (try split)))
-  all_goals (try (left; first | rfl | trivial))
-  all_goals (try (right; left; rfl))
-  case sRename i => right; right; exact ⟨i, rfl, rfl⟩
 
 theorem step_entry_env (s : State) (e : Ev) (h : ∀ p, e ≠ .step p) : (step s e).entry = s.entry := by
   cases e with
@@ -632,7 +989,7 @@ theorem step_entry_env (s : State) (e : Ev) (h : ∀ p, e ≠ .step p) : (step s
   | replace m => rfl
   | tick => rfl
 
-/-- the cache directory never holds a torn entry (unless it started with one) -/
+/-- the entry name never points to a torn pickle (unless it started with one) -/
 def InvC (s : State) : Prop := ∀ i, s.entry = some i → (s.inodes i).len = full
 
 theorem step_invC (s : State) (e : Ev) (h : Inv s) (hc : InvC s) : InvC (step s e) := by
@@ -640,7 +997,7 @@ theorem step_invC (s : State) (e : Ev) (h : Inv s) (hc : InvC s) : InvC (step s 
   | step p =>
     intro i hi
     have hf := stepProc_frame s p h
-    rcases stepProc_entry_cases s p h with a | a | ⟨j, a, b⟩
+    rcases stepProc_entry_cases s p h with a | a | ⟨j, a, b, c⟩
     · have hi' : s.entry = some i := by rw [← a]; exact hi
       obtain ⟨h1, h2⟩ := h.entry i hi'
       rcases (hf.inodes i h1).2.2.2 with ⟨_, c⟩ | c
@@ -650,12 +1007,14 @@ theorem step_invC (s : State) (e : Ev) (h : Inv s) (hc : InvC s) : InvC (step s 
     · have hi' : (stepProc s p).entry = some i := hi
       rw [a] at hi'; cases hi'
     · have hi' : (stepProc s p).entry = some i := hi
-      rw [b] at hi'; cases hi'
+      have e : j = i := by rw [c] at hi'; exact Option.some.inj hi'
+      subst e
       have hp := h.pcs p
       rw [a] at hp
-      show ((stepProc s p).inodes i).len = full
-      simp only [stepProc, a, upd_same, h.sameDevice, Bool.false_eq_true, if_false]
-      exact hp.2
+      have hcont : s.tmps.contains j = true := by simpa using b
+      show ((stepProc s p).inodes j).len = full
+      simp only [stepProc, a, hcont, if_true, upd_same]
+      exact hp.2.1
   | spawn p op sv => simp only [step]; split <;> exact hc
   | crash p => simp only [step]; split <;> exact hc
   | modify t => exact hc
@@ -702,13 +1061,14 @@ theorem step_invP (V : Nat) (Q : Nat → Prop) (s : State) (e : Ev) (h : Inv s) 
     · intro i hi
       have hi' : (stepProc s p).entry = some i := hi
       show ((stepProc s p).inodes i).sver = V
-      rcases stepProc_entry_cases s p h with a | a | ⟨j, a, b⟩
+      rcases stepProc_entry_cases s p h with a | a | ⟨j, a, b, c⟩
       · rw [a] at hi'
         rw [hsv i (h.entry i hi').1]; exact hP.entryV i hi'
       · rw [a] at hi'; cases hi'
-      · rw [b] at hi'; cases hi'
+      · have e : j = i := by rw [c] at hi'; exact Option.some.inj hi'
+        subst e
         rw [a] at hp
-        rw [hsv i hp.1.1, hp.1.2.2.2.2]
+        rw [hsv j hp.1.1, hp.1.2.2.2.2]
         simpa [storeOK, a, PC.isStore] using ok
     · intro q hq
       by_cases e : q = p
@@ -717,8 +1077,15 @@ theorem step_invP (V : Nat) (Q : Nat → Prop) (s : State) (e : Ev) (h : Inv s) 
         show heldV (stepProc s q) V ((stepProc s q).procs q).pc
         cases hpc : (s.procs q).pc <;> rw [hpc] at hp hq' <;>
           simp only [stepProc, hpc, statEntryCatchesENOENT, openCatchesENOENT, unpickleCatchesAll,
-            brokenIsUnlinked, unlinkCatchesENOENT, stampCatchesENOENT, loadByFd, if_true, h.sameDevice, Bool.false_eq_true, if_false]
+            brokenIsUnlinked, unlinkCatchesENOENT, stampCatchesENOENT, loadByFd, utimeCatchesENOENT,
+            moveCatchesENOENT, if_true]
         all_goals (try (exact False.elim hp))
+        case cUnlink todo =>
+          cases todo with
+          | nil => simp [State.setPc, heldV]
+          | cons n rest =>
+            simp only
+            split <;> (split <;> simp [State.setPc, heldV, unlinkName]) <;> (cases n <;> simp [State.setPc, heldV, unlinkName])
         all_goals (try (split <;> (try split)))
         all_goals (try simp [State.setPc, heldV])
         case h_2 i hi => exact hP.entryV i hi
@@ -768,15 +1135,15 @@ theorem run_invP (V : Nat) (Q : Nat → Prop) (s : State) (evs : List Ev) (h : I
 
 /-! ### concrete initial states -/
 
-theorem mkInit_initAny (clock ver sm : Nat) (entry : Option (Nat × Nat × Nat × Nat)) (stamp : Option Nat)
-    (xdev : Bool) (hd : ∀ d sv l m, entry = some (d, sv, l, m) → d ≤ ver) :
-    InitAny (mkInit clock ver sm entry stamp xdev) where
+theorem mkInit_init (clock ver sm : Nat) (entry : Option (Nat × Nat × Nat × Nat)) (stamp : Option Nat)
+    (hd : ∀ d sv l m, entry = some (d, sv, l, m) → d ≤ ver) : Init (mkInit clock ver sm entry stamp) where
   idle := fun _ => rfl
   entry := by
     intro i hi
     cases entry with
     | none => simp [mkInit] at hi
     | some e => simp [mkInit] at hi ⊢; omega
+  tmps := rfl
   dataLe := by
     intro i hi
     cases entry with
@@ -786,46 +1153,27 @@ theorem mkInit_initAny (clock ver sm : Nat) (entry : Option (Nat × Nat × Nat 
       simp [mkInit]
       exact hd d sv l m rfl
 
-theorem mkInit_init (clock ver sm : Nat) (entry : Option (Nat × Nat × Nat × Nat)) (stamp : Option Nat)
-    (hd : ∀ d sv l m, entry = some (d, sv, l, m) → d ≤ ver) : Init (mkInit clock ver sm entry stamp) where
-  toInitAny := mkInit_initAny clock ver sm entry stamp false hd
-  sameDevice := rfl
-
-/-- the freshness conditions on an initial state, on any device layout -/
-structure FreshStart (s : State) : Prop where
-  inoClock : ∀ i, i < s.nIno → (s.inodes i).mtime ≤ s.clock
-  mono : ∀ a b, a ≤ b → b ≤ s.ver → s.srcM a ≤ s.srcM b
-  srcClock : s.srcM s.ver ≤ s.clock
-  fresh : ∀ i, i < s.nIno → (s.inodes i).len = full → (s.inodes i).data < s.ver →
-    (s.inodes i).mtime < s.srcM ((s.inodes i).data + 1)
-
-theorem InitF.freshStart {s : State} (h : InitF s) : FreshStart s :=
-  ⟨h.inoClock, h.mono, h.srcClock, h.fresh⟩
-
-theorem mkInit_freshStart_empty (clock ver sm : Nat) (stamp : Option Nat) (xdev : Bool) (hsm : sm ≤ clock) :
-    FreshStart (mkInit clock ver sm none stamp xdev) where
-  inoClock := by intro i hi; simp [mkInit] at hi
-  mono := fun _ _ _ _ => Nat.le_refl _
-  srcClock := hsm
-  fresh := by intro i hi; simp [mkInit] at hi
-
+/-- the initial entry `(d, sv, l, m)`: its mtime is the current source mtime only if it is the
+    parse of the current version (or torn); otherwise there must be an earlier version it can have
+    been made from -/
 theorem mkInit_initF (clock ver sm : Nat) (entry : Option (Nat × Nat × Nat × Nat)) (stamp : Option Nat)
-    (hd : ∀ d sv l m, entry = some (d, sv, l, m) → d ≤ ver) (hsm : sm ≤ clock)
-    (hm : ∀ d sv l m, entry = some (d, sv, l, m) → m ≤ clock ∧ (l = full → d < ver → m < sm)) :
+    (hd : ∀ d sv l m, entry = some (d, sv, l, m) → d ≤ ver)
+    (hm : ∀ d sv l m, entry = some (d, sv, l, m) → (m = sm ∨ 0 < ver) ∧ (l = full → m = sm → d = ver)) :
     InitF (mkInit clock ver sm entry stamp) where
   toInit := mkInit_init clock ver sm entry stamp hd
-  inoClock := by
-    intro i hi
+  pubStamp := by
+    intro i hi _
     cases entry with
     | none => simp [mkInit] at hi
     | some e =>
       obtain ⟨d, sv, l, m⟩ := e
-      simp [mkInit]
-      exact (hm d sv l m rfl).1
-  mono := fun _ _ _ _ => Nat.le_refl _
-  srcClock := hsm
-  fresh := by
-    intro i hi
+      obtain ⟨h1, _⟩ := hm d sv l m rfl
+      by_cases hsm : m = sm
+      · exact ⟨ver, Nat.le_refl _, by simp [mkInit, hsm]⟩
+      · have hv : 0 < ver := by rcases h1 with a | a; exact absurd a hsm; exact a
+        exact ⟨0, Nat.zero_le _, by simp [mkInit, show (0 : Nat) ≠ ver by omega]⟩
+  cur := by
+    intro i hi _
     cases entry with
     | none => simp [mkInit] at hi
     | some e =>
